@@ -5,15 +5,7 @@ GHOST_DEFS
 #include "stubs/libc_io.h"
 #include "contracts/io.h"
 
-int chunks_from_temp(zckCtx *zck)
-V_REQUIRES(__CPROVER_rw_ok(zck, sizeof(*zck)))
-V_REQUIRES(G_IX(zck->fd) != G_IX(zck->temp_fd))
-V_REQUIRES(zck->error_state == 0)   /* zck_close has passed VALIDATE_BOOL and every earlier step reported success */
-V_ASSIGNS(zck->error_state, g_fpos, g_rd_bytes, g_wr_bytes, g_io_failed, g_win_bad, g_last_read, g_watch_seen, g_watch_val)
-V_ENSURES(!__CPROVER_return_value || zck->no_write == 1 || g_wr_bytes[G_IX(zck->fd)] - V_OLD(g_wr_bytes[G_IX(zck->fd)]) == g_rd_bytes[G_IX(zck->temp_fd)] - V_OLD(g_rd_bytes[G_IX(zck->temp_fd)])) /*@C12,C01.chunks_from_temp.success_means_every_byte_read_was_written*/
-V_ENSURES(!__CPROVER_return_value || zck->no_write == 1 || g_last_read == 0) /*@C12,C01.chunks_from_temp.success_means_read_reached_eof*/
-V_ENSURES(!__CPROVER_return_value || zck->no_write != 1 || (g_wr_bytes[G_IX(zck->fd)] == V_OLD(g_wr_bytes[G_IX(zck->fd)]))) /*@C01.chunks_from_temp.no_write_writes_nothing*/
-;
+#include "contracts/io_temp.h"   /* chunks_from_temp: shared with units/zckw.c */
 
 #include "extracted_zalloc.c"   /* zmalloc/zrealloc, extracted verbatim from src/lib/zck.c by the driver */
 #include "src/lib/io.c"
